@@ -181,8 +181,39 @@ def width_class(n):
     return "1" if n < 24 else "2" if n < 256 else "3" if n < 65536 else "5"
 
 
+def _share(desc):
+    """Make every {envelope: X} reference the SAME object as the integrated dependency that equals X (a replay file stores the
+    description as JSON, which duplicates what was one object)."""
+    pool = []
+
+    def collect(x):
+        if isinstance(x, dict):
+            for k, v in x.items():
+                if k == "suit-integrated-dependencies" and isinstance(v, dict):
+                    pool.extend(d for d in v.values() if isinstance(d, dict))
+                collect(v)
+        elif isinstance(x, list):
+            for v in x:
+                collect(v)
+
+    def link(x):
+        if isinstance(x, dict):
+            for k, v in list(x.items()):
+                if k == "envelope" and isinstance(v, dict):
+                    x[k] = next((d for d in pool if d == v), v)
+                else:
+                    link(v)
+        elif isinstance(x, list):
+            for v in x:
+                link(v)
+
+    collect(desc)
+    link(desc)
+    return desc
+
+
 def judge(case, acc, ctx):
-    desc = case["desc"]
+    desc = _share(case["desc"]) if case.get("shared") else case["desc"]
     route = case.get("route", "mem")
     target = case.get("target")
     d = None
@@ -299,6 +330,27 @@ def special_cases():
             yield {"desc": {"SUIT_Envelope_Tagged": {"suit-authentication-wrapper": wrapper, "suit-manifest": man, member: [v]}}, "route": "mem" if i % 2 else "yaml", "target": None}
         inner = {"SUIT_Envelope_Tagged": {"suit-authentication-wrapper": wrapper, "suit-manifest": {**base, "suit-validate": [v]}}}
         yield {"desc": {"SUIT_Envelope_Tagged": {"suit-authentication-wrapper": wrapper, "suit-manifest": dict(base), "suit-integrated-dependencies": {"#d": inner}}}, "route": "mem", "target": None}
+    # ONE description object for a dependency that is named twice - by the parent's image digest ({envelope: ...}) and as integrated
+    # dependency (a YAML anchor and its alias; a dict shared by a library caller) - with the parent asking for another algorithm than the
+    # dependency declares for itself, manifest before and after the integrated dependencies
+    algs = list(R.HASH_ALGS)
+    for i, (palg, dalg) in enumerate([(algs[2], algs[0]), (algs[3], algs[1]), (algs[0], algs[4]), (algs[0], algs[0]), (algs[4], algs[2])]):
+        dep = {"SUIT_Envelope_Tagged": {"suit-authentication-wrapper": {"SuitDigest": {"suit-digest-algorithm-id": dalg}},
+                                        "suit-manifest": {"suit-manifest-version": 1, "suit-manifest-sequence-number": 40 + i, "suit-common": {},
+                                                          "suit-text": {"suit-digest-algorithm-id": algs[(i + 1) % 5]}},
+                                        "suit-text": {"en": {"suit-text-manifest-description": "dependency described once"}}}}
+        man = {"suit-manifest-version": 1, "suit-manifest-sequence-number": 50 + i, "suit-common": {"suit-components": [["M"]]},
+               "suit-install": [{"suit-directive-set-component-index": 0}, {"suit-directive-override-parameters": {
+                   "suit-parameter-image-digest": {"suit-digest-algorithm-id": palg, "suit-digest-bytes": {"envelope": dep}}}}]}
+        wrapper = {"SuitDigest": {"suit-digest-algorithm-id": palg}}
+        for order in (0, 1):
+            e = {"suit-authentication-wrapper": wrapper}
+            if order:
+                e["suit-integrated-dependencies"] = {"#dep": dep}
+            e["suit-manifest"] = man
+            if not order:
+                e["suit-integrated-dependencies"] = {"#dep": dep}
+            yield {"desc": {"SUIT_Envelope_Tagged": e}, "route": "mem" if (i + order) % 2 else "yaml", "target": None, "shared": True}
 
 
 def plan(ctx):
